@@ -20,6 +20,7 @@
 #include <cstdio>
 #include <cstdlib>
 #include <cstring>
+#include <ctime>
 #include <fstream>
 #include <functional>
 #include <iostream>
@@ -1256,7 +1257,21 @@ int pbtMain(int argc, char** argv, const Property<Case>& prop)
     bool haveFail = false;
     uint64_t dumped = 0;
     auto gen = prop.gen(opt.tier);
+    // Shrinking is bounded: after the first failure at most 3000 further executions or 180 s are spent on making the case smaller; every
+    // candidate after that is accepted as "passing" without being run, which ends rapidcheck's search with the smallest failing case
+    // found so far (cases with thousands of frames or multi-threaded runs would otherwise shrink for hours).  This never affects a
+    // verdict: the reported case is the last one that really failed, and it is confirmed by separate replays.
+    uint64_t shrinkExecs = 0;
+    time_t firstFailAt = 0;
     bool ok = rc::check(prop.id, [&]() {
+        if (haveFail)
+        {
+            // checked before the candidate is even generated: re-generating a case of thousands of frames per candidate is the cost
+            if (!firstFailAt)
+                firstFailAt = time(nullptr);
+            if (++shrinkExecs > 3000 || time(nullptr) - firstFailAt > 180)
+                return;
+        }
         Case c = *gen;
         Info info;
         currentCaseText() = serialize(c);
